@@ -12,7 +12,7 @@ import (
 var extraRules = map[string][]string{
 	// round-2 rules
 	"envelope-buffer-fresh":      {"C01", "C13"},
-	"no-error-type-assertion":    {"C02", "C06", "C15"},
+	"no-error-type-assertion":    {"C02", "C06", "C11", "C15"},
 	"seterror-last":              {"C03", "C04", "C11", "C14"},
 	"no-readahead":               {"C01", "C03", "C09"},
 	"response-nil-guard":         {"C04", "C06", "C14"},
@@ -73,7 +73,7 @@ var extraRules = map[string][]string{
 	"hb-response-ready":               {"C11"},
 	"eof-compare-is":                  {"C02", "C06", "C15"},
 	"wrote-flag-before-write":         {"C02", "C05", "C11"},
-	"response-headers-flushed":        {"C11", "C02"},
+	"response-headers-flushed":        {"C02", "C05", "C11"},
 	"pool-hygiene":                    {"C06", "C07"},
 	// existing rules whose mechanism other properties rest on as well
 	"header-canonical":           {"C01", "C02", "C08", "C10", "C12"},
@@ -90,15 +90,15 @@ var extraRules = map[string][]string{
 	"non200-is-error":            {"C02", "C04"},
 	"carrier-pairing":            {"C02"},
 	"holder-fresh":               {"C13"},
-	"bounded-read":               {"C07"},
-	"limit-wiring":               {"C07"},
+	"bounded-read":               {"C01", "C07"},
+	"limit-wiring":               {"C01", "C07", "C15"},
 	"timeout-arith":              {"C07"},
-	"typed-nil":                  {"C02", "C06"},
+	"typed-nil":                  {"C02", "C06", "C16"},
 	"frame-layout":               {"C03", "C05", "C07"},
 	"full-read":                  {"C04", "C07"},
 	"receive-sets-error":         {"C04", "C15"},
 	"unary-second-receive":       {"C01", "C05"},
-	"content-type-codec-inverse": {"C05"},
+	"content-type-codec-inverse": {"C01", "C05", "C07"},
 	"err-fields":                 {"C05"},
 	"multi-value":                {"C01"},
 	"wrap-once":                  {"C12"},
@@ -109,6 +109,26 @@ var extraRules = map[string][]string{
 	"pool-ownership":             {"C08"},
 	"user-visible-same-map":      {"C06"},
 	"header-pairing":             {"C01", "C05", "C10"},
+	// round-5 rules and sharing
+	"error-replaced-only-when-identified": {"C04", "C15"},
+	"compression-roles":                   {"C07"},
+	"copyn-loop":                          {"C09", "C06"},
+	"ctx-code-table":                      {"C19"},
+	"ctx-before-io":                       {"C14"},
+	"close-on-all-exits":                  {"C13"},
+	"envelope-reads-bounded":              {"C01", "C03", "C06", "C09", "C14"},
+	"pipe-close-plain":                    {"C02", "C14"},
+	"wrappers-never-swallow":              {"C02", "C04", "C06", "C14"},
+	"end-stream-error-always-set":         {"C02", "C05", "C19"},
+	"wire-error-decode-complete":          {"C02", "C05"},
+	"any-not-rewrapped":                   {"C02", "C05", "C19"},
+	"unary-send-no-flush-on-failure":      {"C02", "C05"},
+	"spec-stamped-before-chain":           {"C12"},
+	"peer-text-quoted":                    {"C07"},
+	"omitted-field-deref":                 {"C04", "C06"},
+	"gen-features-unconditional":          {"C17"},
+	"gen-no-reject":                       {"C17"},
+	"gen-import-path-matches-package":     {"C17"},
 }
 
 func init() {
